@@ -229,7 +229,7 @@ pub fn run_c14(ctx: &Ctx) -> Report {
         }
     });
     rep.merge(r);
-    if !ctx.miri && ctx.only.is_none() {
+    if ctx.strict() {
         rep.require("chained_counts_compared", 100);
         rep.require("ok_packets_compared", 100);
         rep.require("zero_column_counts_compared", 10);
@@ -506,7 +506,7 @@ pub fn run_c09(ctx: &Ctx) -> Report {
         }
     });
     rep.merge(r);
-    if !ctx.miri && ctx.only.is_none() {
+    if ctx.strict() {
         rep.require("definitions_compared", 1000);
         rep.require("prepare_ok_headers_compared", 100);
         rep.require("re_prepare_headers_compared", 100);
